@@ -176,4 +176,91 @@ class OverlapExact(Component):
         ctx.label("score", case["out_sim_score"])
 
 
-COMPONENTS = [Candset(), OverlapExact()]
+@st.composite
+def large_candset_case(draw, tier):
+    from .c02 import large_case
+    case = draw(large_case(tier))
+    case["ftype"] = draw(st.sampled_from(["size", "prefix", "position", "suffix", "overlap"]))
+    if case["ftype"] == "overlap":
+        case["measure"] = "OVERLAP"
+    elif case["measure"] == "OVERLAP_COEFFICIENT":
+        case["measure"] = "COSINE"
+    case["cand_rows"] = draw(st.integers(50, 3000 if tier == "thorough" else 900))
+    case["index_kind"] = draw(st.sampled_from(["range", "gaps", "dup", "str"]))
+    return case
+
+
+class LargeCandset(Component):
+    """Candidate sets of 50-3000 rows over the larger synthetic tables, non-default index
+    labels, n_jobs up to 24: filter_candset equals the row-wise filter_pair mask."""
+    name = "large"
+    kind = "hyp"
+    rule = ">=1 candidate row kept and >=1 dropped"
+
+    def examples(self, tier):
+        return 10 if tier == "quick" else 60
+
+    def strategy(self, tier):
+        return large_candset_case(tier)
+
+    def check(self, case, ctx):
+        import random
+
+        import pandas as pd
+        from .c02 import large_tables
+        L, R, lv, rv = large_tables(case["seed"], case["nl"], case["nr"], case["vocab"],
+                                    case["maxtok"])
+        rnd = random.Random(case["seed"] + 1)
+        n = case["cand_rows"]
+        li = [rnd.randrange(case["nl"]) for _ in range(n)]
+        ri = [rnd.randrange(case["nr"]) for _ in range(n)]
+        lk, rk = L["key"].tolist(), R["key"].tolist()
+        C = pd.DataFrame({"_id": list(range(5, 5 + n)), "lk": [lk[i] for i in li],
+                          "rk": pd.Series([rk[j] for j in ri], dtype=object),
+                          "w": [0.5 * (i % 3) for i in range(n)]})
+        C.index = pd.Index({"range": list(range(n)), "gaps": [3 * i + 1 for i in range(n)],
+                            "dup": [i // 3 for i in range(n)],
+                            "str": ["c%d" % i for i in range(n)]}[case["index_kind"]])
+        ft, m = case["ftype"], case["measure"]
+        t = max(1, case["tgrid"] // 12) if m == "OVERLAP" else case["tgrid"] / 100.0
+        fcfg = {"type": ft, "measure": m, "threshold": t, "allow_missing": case["allow_missing"]}
+        f = calls.make_filter(ctx, fcfg, mk_tok({"kind": "ws", "return_set": True}))
+        g = calls.make_filter(ctx, fcfg, mk_tok({"kind": "ws", "return_set": True}))
+        if f is None or g is None:
+            return
+        before = canon.snapshot(C)
+        nj = case["n_jobs"]
+        with calls.backend(nj):
+            out = ctx.lib(f.filter_candset, C, "lk", "rk", L, R, "key", "key", "val", "val",
+                          n_jobs=nj, show_progress=False)
+        if out is None:
+            return
+        memo = {}
+        mask = []
+        for i, j in zip(li, ri):
+            k = (i, j)
+            if k not in memo:
+                memo[k] = not ctx.lib(g.filter_pair, lv[i], rv[j])
+            mask.append(memo[k])
+        exp = C.iloc[[i for i, keep in enumerate(mask) if keep]]
+        desc = "%s(%s, %r).filter_candset n_jobs=%r on %d candidate rows (index %s, seed %d)" % (
+            c04.CLS[ft], m, t, nj, n, case["index_kind"], case["seed"])
+        if list(out.columns) != list(exp.columns):
+            ctx.violation("filter=%s,kind=candset-columns" % c04.CLS[ft], "%s: columns %r"
+                          % (desc, list(out.columns)))
+        if [canon.cv(i) for i in out.index.tolist()] != [canon.cv(i) for i in exp.index.tolist()]:
+            ctx.violation("filter=%s,kind=candset-index" % c04.CLS[ft],
+                          "%s: %d index labels returned, %d expected; first labels %r vs %r"
+                          % (desc, len(out), len(exp), out.index.tolist()[:6],
+                             exp.index.tolist()[:6]))
+        if canon.rows_of(out) != canon.rows_of(exp):
+            ctx.violation("filter=%s,kind=candset-rows" % c04.CLS[ft],
+                          "%s: rows differ from the filter_pair mask" % desc)
+        if canon.snapshot(C) != before:
+            ctx.violation("filter=%s,kind=candset-mutated" % c04.CLS[ft],
+                          "%s modified its candidate set" % desc)
+        ctx.nontrivial(any(mask) and not all(mask))
+        ctx.label("large:" + ft)
+
+
+COMPONENTS = [Candset(), OverlapExact(), LargeCandset()]
